@@ -393,8 +393,18 @@ impl TextSelection {
     /// Note: this is a low level method and will always return an unbound textselection!
     pub fn textselection_by_offset(&self, offset: &Offset) -> Result<TextSelection, StamError> {
         let (begin, end) = (
-            self.begin + self.beginaligned_cursor(&offset.begin)?,
-            self.begin + self.beginaligned_cursor(&offset.end)?,
+            self.begin
+                .checked_add(self.beginaligned_cursor(&offset.begin)?)
+                .ok_or(StamError::CursorOutOfBounds(
+                    offset.begin,
+                    "Begin cursor is out of bounds",
+                ))?,
+            self.begin
+                .checked_add(self.beginaligned_cursor(&offset.end)?)
+                .ok_or(StamError::CursorOutOfBounds(
+                    offset.end,
+                    "End cursor is out of bounds",
+                ))?,
         );
         if begin > self.end {
             return Err(StamError::CursorOutOfBounds(
